@@ -14,6 +14,17 @@ def e2(text, note, ref):
 def e1(text, note, ref):
   return ("other", E1, text, note, ref)
 
+E1E = ("E1+enum: CrossHair (z3) symbolic execution of the real functions for the typed symbolic obligations (per-obligation exhaustion of all paths within the "
+       "stated bounds, reachability twin, native replay); obligations whose arguments are realised anyway (text handed to C parsers, catalogue indices) are "
+       "decided by the z3 AllSAT loop over their finite argument domains with native calls of the same harness functions (final unsat = domain covered)")
+
+def e1e(text, note, ref):
+  return ("other", E1E, text, note, ref)
+
+def en(text, note, ref):
+  return ("exploration", "E2-enum on unit functions: z3 AllSAT over the finite argument domains of each obligation (cube blocking, final unsat = domain covered); every "
+          "model is one native call of the real functions; counterexamples replayed in a fresh process", text, note, ref)
+
 BND = "fixtures <= 3 user tables / <= 4 rows; pools of names/types/values/formulas; friendly_traceback stand-in; encoded-cell equality"
 CHECKS = {
   "C01": e2("Every bundle in a bounded template space (1 action med pools on 6 fixtures; 2-action bundles with micro pools) runs on the real engine; the returned undo is applied and all tables incl. metadata must equal the pre-state; histories are undone in reverse.", BND, "C01"),
@@ -29,29 +40,29 @@ CHECKS = {
   "C11": e2("Invariant on fixture twoway after every successful bundle: reverse-linked columns are symmetric.", BND + "; data<->formula switches of linked columns excluded", "C11"),
   "C12": e2("Invariant after every successful bundle: each summary table == recomputed group-by of its source (keys, uniqueness, groups ascending, no empty groups).", BND + "; Date keys by calendar day; error-valued keys not judged", "C12"),
   "C13": e2("60 lookupRecords/lookupOne formulas (4 key shapes x 10 order specs) x 3 probes compared with filter + stable sort, before and after an edit; cell contents are holes.", "<= 4 rows; value pools; NaN and incomparable values excluded", "C13"),
-  "C14": e1("find.lt/le/gt/ge/eq and PREVIOUS/NEXT/RANK on symbolic column contents (<= 4 rows), unbounded integer probes, current row; linear-scan oracle.", "stand-in table object; <= 4 (5) rows", "C14"),
+  "C14": e1("find.lt/le/gt/ge/eq (one column asc/desc; two columns X,-Y; mixed int/None/str values) and PREVIOUS/NEXT/RANK with group_by on symbolic column contents, unbounded integer probes and current row; linear-scan oracle; all four obligations confirmed over all paths in the quick tier.", "stand-in table object; rows <= 3 / 3 / 2 quick, 4 / 4 / 3 thorough; cell values 0..3", "C14"),
   "C15": e2("Counter-style trigger formulas on fixture trigger; updates of 1-2 columns on 1-2 rows, adds with explicit values, schema changes; compared with a fires/does-not-fire model.", "3 rows; values pool of 4; 7 trigger configurations", "C15"),
   "C16": e2("27 formula shapes x 8 entities x 14 new names x 3 rename paths: formula values unchanged, only NAME/STRING tokens rewritten.", "programs enumerated (finite grammar); solver = completeness bookkeeping", "C16"),
-  "C17": e1("process_renames with the ACL / dropdown / trigger collectors on a bounded predicate grammar (9 shapes x 17 x 17 atoms), 6 rename scenarios, 5 new names: parsed(new) == old tree with exactly the matching references renamed; unparsable text untouched.", "text realised at ast.parse; engine-level wiring not covered here", "C17"),
+  "C17": en("process_renames with the ACL / dropdown / trigger collectors on a bounded predicate grammar (9 shapes x 17 x 17 atoms), 6 rename scenarios, 5 new names: parsed(new) == old tree with exactly the matching references renamed; unparsable text untouched.", "text is realised at ast.parse, so the grammar is enumerated instead of symbolic; engine-level wiring not covered here", "C17"),
   "C18": e2("All 512 dependency graphs over 3 formula columns x all 6 schedules (+ lookup variant): terminates, CircularRefError exactly on self-dependent cells, normal values elsewhere; a run that does not return is a violation.", "3 columns quick, 4 thorough (time-capped); 2 rows", "C18"),
   "C19": e2("75 formula texts x 2 placements x payloads: other columns unchanged, engine keeps working; for texts an independent tokenize-based translation compiles, values equal exec() of that translation.", "programs enumerated; f-strings and side-effect texts: isolation only", "C19"),
   "C20": ("other", E3 + "; plus " + E2, "(a) QF_FPBV lemmas over all doubles for get_range/prevfloat/nextfloat run on FP proxies; (b) prepare_inserts on catalogue (+) ulps lists against the four clauses; (c) position columns distinct and finite on engine runs.", "lists <= 3; keys <= 2; existing positions < 2^53; count = 1 lemma quick, 2 thorough", "C20"),
-  "C21": e1("pick_col_ident / pick_table_ident / pick_col_ident_list on names of length <= 2 (3) over a 16-symbol alphabet incl. non-ASCII, 4 avoid sets: valid, unused case-insensitively, identity on valid unused names.", "alphabet and avoid sets bounded; strings realised at unicodedata.normalize", "C21"),
-  "C22": e1("Every usertypes type x input kind (ints, big ints, bool/None, rationals, special floats, strs len <= 2, numeric strings, lists, dates, special objects): total, lands in the type/alt-text/same error, idempotent.", "per-kind obligations; type index realised", "C22"),
+  "C21": e1e("pick_col_ident / pick_table_ident / pick_col_ident_list on names of length <= 2 (3) over a 16-symbol alphabet incl. non-ASCII, 4 avoid sets: valid, unused case-insensitively, identity on valid unused names.", "alphabet and avoid sets bounded; the single-name obligations are symbolic (confirmed over all paths); pick_col_ident_list over 3 names is enumerated", "C21"),
+  "C22": e1e("Every usertypes type x input kind: total, lands in the type/alt-text/same error, idempotent. Symbolic: ints, bool/None, rationals, strs (len <= 1; 2 thorough), lists. Enumerated: all strings of <= 2 characters over 13 interesting characters, boundary ints, special floats, numeric/date/JSON-looking strings, lists and tuples of <= 2 items, dates, special objects, Blob.", "per-kind obligations; type index realised; symbolic str/list obligations are counterexample search (not exhausted)", "C22"),
   "C23": e2("All ordered pairs of 12 column types on 5 columns with 2 symbolic cell contents from a pool: cells == new type's conversion of the old raw values; no other data cell changes.", "fixture basic (+ twoway thorough); pool of 13 values", "C23"),
-  "C24": e1("encode_object on symbolic scalars / lists / dicts / nested values and 58 special values: encoded form marshal-safe (exact builtin types, marshal.dumps succeeds) and encode(decode(encode(v))) == encode(v).", "strings len <= 2; containers len <= 2, depth <= 2", "C24"),
-  "C25": e1("JSON-reading migrations (found by source scan) run with json.loads stubbed to return a symbolic JSON value: total; counterexamples replayed with the real json; plus create_migrations from every start version 0..SCHEMA_VERSION reaching the current schema.", "json stub; 7 scenarios; one user table", "C25"),
+  "C24": e1e("encode_object: encoded form marshal-safe (exact builtin types; marshal.dumps succeeds on concrete runs) and encode(decode(encode(v))) == encode(v). Symbolic and exhausted: every int within 2 of the 32-bit range, every str of len <= 5 (8), bool/None, lists/tuples of <= 3 ints/None, lists of strs, dicts of ints. Counterexample search: ints beyond 32 bits, floats, mixed containers. Enumerated: 54 special values bare and inside 4 containers, boundary ints.", "containers len <= 3, depth <= 2 (+ one 3000-deep and one recursive list)", "C24"),
+  "C25": e1e("JSON-reading migrations (found by source scan) run on stored JSON values of every shape from a catalogue (scalars, lists, objects, malformed text; enumerated) and, in the thorough tier, on a symbolic JSON value through a json.loads stub: total; plus create_migrations from every start version 0..SCHEMA_VERSION reaching the current schema.", "7 scenarios; one user table", "C25"),
   "C26": e2("Bundles of 1-3 actions from a pool of 16 temp-id actions vs a reference interpretation of temporary ids; undefined negative reference values must be rejected without trace.", "two tables; bundle length <= 3", "C26"),
   "C27": e2("(existing rows, action, id list of length <= 3 from a pool of 7) for AddRecord/BulkAddRecord/ReplaceTableData: returned ids == created rows, distinct, automatic ids greater than existing; invalid requests rejected without change.", "4 existing-row sets", "C27"),
   "C28": e2("BulkAddOrUpdateRecord/AddOrUpdateRecord on 3 table contents x require/col_values/options pools vs a 40-line reference upsert.", "lists <= 2", "C28"),
   "C29": e2("8 read-only calls x tables x columns x rows x 20 autocomplete texts on a restored document with a side-effecting formula: snapshot unchanged, next Calculate silent.", "fixture views + lookupOrAddDerived formula", "C29"),
   "C31": e2("Record-edit bundles on documents with formulas and summary tables; direct flags checked against the property's clauses.", BND, "C31"),
-  "C32": e1("_parse_open_file with csv.reader stubbed to return a symbolic grid (shapes realised, 1-char cells symbolic, up to 102 filler rows): equal column lengths, one entry per data row, every non-empty cell at its place; replay through the real csv module.", "widths <= 3; whitespace-only cells count as empty", "C32"),
-  "C33": e1("import_json.dumps on symbolic JSON (flat, nested objects, arrays, scalars) with 6 include/exclude options: equal column lengths, rows per item, Ref ids in range, every non-null scalar exactly once.", "keys from 4; rows <= 2; a key is an object in every row or in none", "C33"),
+  "C32": en("parse_file on grids written by the real csv module: rectangular <= 3x3 over 6 cell values, ragged shapes (k <= 3 rows of width w1 then rows of widths w2, w3), and the 100-row header-sample boundary: equal column lengths, one entry per data row, every non-empty cell at its place.", "widths <= 3; whitespace-only cells count as empty; the importer's regular expressions cannot be followed on symbolic strings, so cells are enumerated", "C32"),
+  "C33": e1e("import_json.dumps with 6 include/exclude options: equal column lengths, rows per item, Ref ids in range, every non-null scalar exactly once. Symbolic: flat objects (20 key-set shapes, unbounded int / short str / null values), top-level scalar lists and single scalars. Enumerated: 1-2 rows out of 13 nested-object shapes and 8 array shapes x options.", "keys from 4; rows <= 2; a key is an object in every row or in none", "C33"),
   "C34": ("other", E3, "ts_to_dt/dt_to_ts round trip, date round trip and 'local time gets an offset in use' for ALL integer timestamps |ts| <= 9e9 s, per zone (62 zones quick, all 594 thorough): one obligation per (zone, property), unsat on every path.", "integer-microsecond datetime model; zones enumerated", "C34"),
   "C35": ("other", E3, "Schedule.series on symbolic integer start/end for 30+ fixed-length-unit specs x counts 0..3(4) vs the reference occurrence set as an integer formula; 24 invalid specs raise ValueError.", "month/year units and tz-aware starts outside the claim", "C35"),
   "C36": e1("treeview.fix_indents on symbolic indent lists (len <= 4 quick / 5 thorough, unbounded values) and removal flags: valid tree, never deeper, exactly the violating pages change.", "list length bounded", "C36"),
-  "C37": e1("Replacer / Combiner / nested Replacer on symbolic text (len <= 3 over 'ab$'), patches and offsets: output == direct application; mapped-back patches cover the same source characters; spanning patches refused.", "replacement len <= 1 (2 thorough); zero-width deletion boundary ambiguity accepted", "C37"),
+  "C37": e1e("Replacer / Combiner / nested Replacer: output == direct application; mapped-back patches cover the same source characters; spanning patches refused. Symbolic text (len <= 3 over 'ab$'; 4 thorough), patches and offsets; the Combiner and Replacer-over-Replacer spaces are also enumerated completely for texts one character shorter.", "replacement len <= 1 (2 thorough); zero-width deletion boundary ambiguity accepted", "C37"),
   "C38": ("other", E4, "schema.py/gen_js_schema.py/usertypes defaults vs schema.ts/gristTypes.ts as z3 String->String functions; exists-key-with-different-image query per table (5 tables) + byte comparison with the generator output.", "finite tables; regex readers of the .ts files", "C38"),
   "C39": e2("RenameChoices on (Choice cells, ChoiceList cells, filter text, column, rename map) cubes: exactly the mapped values renamed simultaneously in cells and that column's filters, everything else unchanged.", "2 symbolic rows + a removed row; 11 maps; 5 filters", "C39"),
   "C40": e1("444 predicate expressions (depth <= 2) x symbolic values of $a,$b,user.x (unbounded ints), $c (bool), $s (str len <= 2): parse tree JSON-serialisable and evaluates like Python; 39 non-subset texts raise SyntaxError.", "expression index realised; Python node semantics", "C40"),
